@@ -590,6 +590,12 @@ class PrimMixin:
             raise SpecError("field %r has no recorded sub-array shape" % (args[1],))
         return v
 
+    def p_builtin_is_int(self, args, kw, st, fr, node):
+        v = args[0]
+        if kind_of(v) == "int":
+            return True
+        return z3.IsInt(to_z3(v, "real"))
+
     def p_builtin_approx(self, args, kw, st, fr, node):
         """equality over the reals (the run-time evaluator allows floating-point rounding)"""
         return to_z3(args[0], "real") == to_z3(args[1], "real")
@@ -728,6 +734,8 @@ class PrimMixin:
                       z3.ForAll([i], z3.Implies(z3.And(i >= 0, i < to_z3(a.n, "int")), a.data[i] == b.data[i])))
 
     def p_builtin_sqrt(self, args, kw, st, fr, node):
+        if self.is_arr(args[0], st):
+            return self.np_sqrt(args, kw, st, fr, node)
         return self.ufun("sqrt", [args[0]], st, fr, node)
 
     def p_builtin_ufn(self, args, kw, st, fr, node):
@@ -1050,7 +1058,7 @@ class PrimMixin:
             return to_z3(v), kind_of(v)
         (x, kx), (y, ky) = el(a), el(b)
         kind = "real" if "real" in (kx, ky) else kx
-        return st.alloc(HArr(kind, n, z3.Lambda([i], z3.If(t[i], to_z3(x, kind), to_z3(y, kind))), fresh=True))
+        return st.alloc(HArr(kind, n, self.mat(st, n, z3.Lambda([i], z3.If(t[i], to_z3(x, kind), to_z3(y, kind))), kind), fresh=True))
 
     def _argsort(self, a, st, fr, node, stable):
         """fresh index array s: a permutation of 0..n-1 with a[s[i]] non-decreasing (ties by index when stable)"""
@@ -1353,10 +1361,67 @@ class PrimMixin:
     def _np_un(name):
         def f(self, args, kw, st, fr, node):
             v = args[0]
+            out = kw.get("out", args[1] if len(args) > 1 else None)
             if self.is_arr(v, st):
-                return self.np_unary(name, v, st, fr, node)
+                r = self.np_unary(name, v, st, fr, node)
+                if out is not None:
+                    # ufunc(x, out): the result is stored into `out` (a write to that buffer) and `out` is returned
+                    if not self.is_arr(out, st):
+                        raise Unsupported("ufunc out= of a non-array", node)
+                    self.arr_assign_all(out, r, st, fr, node)
+                    return out
+                return r
+            if out is not None:
+                raise Unsupported("ufunc out= with a scalar operand", node)
             return self.ufun(name, [v], st, fr, node)
         return f
+
+    def np_clip(self, args, kw, st, fr, node):
+        """np.clip(a, lo, hi[, out]) / a.clip(lo, hi, out=)"""
+        a, lo, hi = args[0], args[1], args[2]
+        out = kw.get("out", args[3] if len(args) > 3 else None)
+        if not self.is_arr(a, st):
+            x, l_, h_ = to_z3(a, "real"), to_z3(lo, "real"), to_z3(hi, "real")
+            return z3.If(x < l_, l_, z3.If(x > h_, h_, x))
+        n, t = self.arr_term(st, a)
+        i = z3.Int("i!k")
+        kind = st.get(a).kind
+        l_, h_ = to_z3(lo, kind), to_z3(hi, kind)
+        r = st.alloc(HArr(kind, n, self.mat(st, n, z3.Lambda([i], z3.If(t[i] < l_, l_, z3.If(t[i] > h_, h_, t[i]))), kind), fresh=True))
+        if out is not None:
+            self.arr_assign_all(out, r, st, fr, node)
+            return out
+        return r
+
+    nd_clip = np_clip
+
+    # ---- a numpy random generator passed as a parameter (type "opaque:rng"): the draws are arbitrary values in their range
+    def p_rng_random(self, args, kw, st, fr, node):
+        n = kw.get("size", args[0] if args else None)
+        return self._draws(n, 0, 1, True, st, fr, node)
+
+    p_rng_random_sample = p_rng_random
+
+    def p_rng_uniform(self, args, kw, st, fr, node):
+        lo = kw.get("low", args[0] if len(args) > 0 else 0.0)
+        hi = kw.get("high", args[1] if len(args) > 1 else 1.0)
+        n = kw.get("size", args[2] if len(args) > 2 else None)
+        return self._draws(n, lo, hi, False, st, fr, node)
+
+    def _draws(self, n, lo, hi, strict_hi, st, fr, node):
+        self.use("random generator parameter: random()/uniform() return the requested number of arbitrary values in [low, high) / "
+                 "[low, high] (every deviate sequence is covered)")
+        lo_, hi_ = to_z3(lo, "real"), to_z3(hi, "real")
+        if n is None:
+            v = fresh("deviate", R)
+            self.assume(st, z3.And(v >= lo_, (v < hi_) if strict_hi else (v <= hi_)))
+            return v
+        self.oblige(st, to_z3(n, "int") >= 0, "safety", "nonneg-size", node, fr)
+        d = fresh("deviates", z3.ArraySort(I, R))
+        k = fresh("k", I)
+        self.assume(st, z3.ForAll([k], z3.Implies(z3.And(k >= 0, k < to_z3(n, "int")),
+                                                 z3.And(d[k] >= lo_, (d[k] < hi_) if strict_hi else (d[k] <= hi_)))))
+        return st.alloc(HArr("real", n, d, fresh=True))
 
     for _n in ("sqrt", "sin", "cos", "arcsin", "arccos", "log", "log10", "exp", "sinh", "deg2rad", "rad2deg", "abs", "tan",
                "arctan"):
@@ -1367,7 +1432,19 @@ class PrimMixin:
     def np_arctan2(self, args, kw, st, fr, node):
         a, b = args
         if self.is_arr(a, st) or self.is_arr(b, st):
-            raise Unsupported("array arctan2", node)
+            arr = a if self.is_arr(a, st) else b
+            n, _ = self.arr_term(st, arr)
+            i = z3.Int("i!e")
+
+            def el(v):
+                if self.is_arr(v, st):
+                    nv, tv = self.arr_term(st, v)
+                    if not fr.spec:
+                        self.oblige(st, to_z3(nv, "int") == to_z3(n, "int"), "safety", "same-length-operands", node, fr)
+                    return self.coerce_term(tv[i], st.get(v).kind, "real")
+                return to_z3(v, "real")
+            r = self.ufun("arctan2", [el(a), el(b)], st, fr, node, elementwise=(n, i))
+            return st.alloc(HArr("real", n, z3.Lambda([i], to_z3(r)), fresh=True))
         return self.ufun("arctan2", [a, b], st, fr, node)
 
     def np_any(self, args, kw, st, fr, node):
